@@ -38,6 +38,8 @@ type TProc struct {
 	Vars          map[string]string `json:"vars,omitempty"`
 	Ready         *TProbe           `json:"ready,omitempty"`
 	Live          *TProbe           `json:"live,omitempty"`
+	// Deferred: "disabled" or "foreground": not started with the project, loaded and rendered like any other
+	Deferred string `json:"deferred,omitempty"`
 }
 
 type TemplCase struct {
@@ -66,6 +68,12 @@ func (c TemplCase) yaml() string {
 		}
 		if p.Namespace != "" {
 			fmt.Fprintf(&b, "    namespace: %s\n", p.Namespace)
+		}
+		switch p.Deferred {
+		case "disabled":
+			b.WriteString("    disabled: true\n")
+		case "foreground":
+			b.WriteString("    is_foreground: true\n")
 		}
 		if p.WorkingDir != "" {
 			fmt.Fprintf(&b, "    working_dir: %s\n", yq(p.WorkingDir))
@@ -397,6 +405,9 @@ func genTempl(t *rapid.T) TemplCase {
 		}
 		if pbt.Pct(t, 30) {
 			p.Namespace = "ns" + strconv.Itoa(pbt.Range(t, 1, 2))
+		}
+		if pbt.Pct(t, 20) {
+			p.Deferred = pbt.Pick(t, []string{"disabled", "foreground"})
 		}
 		if pbt.Pct(t, 60) {
 			p.WorkingDir = pbt.Pick(t, tmplPieces)
